@@ -157,9 +157,12 @@ def runModel (pathOk : Bool) (gs : Bool) (o0 : Obs) (steps : List Step) : String
   let (_, r) := handle env s (str "status")
   return (if classes.isEmpty then "-" else ",".intercalate classes) ++ " " ++ className r
 
-/-- the concurrent kind: `cont` from one goroutine, `break`/`rmbreak` from another. Every command
-    runs under the debugger's lock, so any interleaving is a sequence of `handle` steps: each
-    reply is ok and `status` answers. -/
+/-- the concurrent kind: all ten commands from three goroutines while ECAL threads run. The
+    model has no concurrent semantics: the prediction is only that no reply is a panic or an
+    unencodable result and that `status` answers afterwards, which the sequential theorems give
+    for every interleaving of whole commands; what is NOT covered by a theorem — replies that
+    alias live tables of the debugger or provider and are encoded after the lock is released —
+    is exactly what this kind tests (a crash of the process is the result CRASH). -/
 def runConc : String := Id.run do
   let env : Env := { eval := fun _ => .error, setPathOk := fun _ _ => true }
   let s0 := init true []
